@@ -3,7 +3,7 @@
 \* Expected outcome: Invariant NoConflictProposal violated after ~160-630 states (H6).
 CONSTANTS
   NV = 4
-  Power <- DrvUnitPower
+  PowerOf <- DrvPowerOf
   MaxVal = 1
   NValid = 1
   MaxRound = 0
